@@ -570,6 +570,17 @@ Definition view_rp (asrc isrc : src) (s : session) (now_op now_rp : Z) : view :=
          (if has_src asrc then Some (now_rp + expires_in s now_op)%Z else None)
          (if has_src isrc then Some (s_idt_exp s) else None).
 
+(* a refresh (RefreshTokenHelper.process_request): the provider mints a new access token and a new ID Token for
+   the SAME grant - client, subject, scope and nonce stay, the expiries are set anew from the provider's clock and
+   the lifetimes - and answers with expires_in of the access token it just minted *)
+Definition refresh_session (s : session) (r : Z * Z * Z) : session :=
+  let '(now, at_life, idt_life) := r in
+  mkSession (s_client s) (s_sub s) (s_scope s) (s_nonce s) (now + at_life)%Z (now + idt_life)%Z.
+Definition refresh_chain (s : session) (l : list (Z * Z * Z)) : session := fold_left refresh_session l s.
+Definition session_eqb (a b : session) : bool :=
+  str_eqb (s_client a) (s_client b) && str_eqb (s_sub a) (s_sub b) && list_eqb str_eqb (s_scope a) (s_scope b)
+  && option_eqb str_eqb (s_nonce a) (s_nonce b) && Z.eqb (s_at_exp a) (s_at_exp b) && Z.eqb (s_idt_exp a) (s_idt_exp b).
+
 Definition opt_agree {A} (eqb : A -> A -> bool) (x y : option A) : bool :=
   match x, y with Some a, Some b => eqb a b | _, _ => true end.
 Definition view_agree (a b : view) : bool :=
@@ -629,3 +640,12 @@ Definition chk_views (k : views_case) : bool :=
   && exp_view_eqb (has_src (k_idt k)) (view_id_token s) (k_id_token k)
   && view_eqb (view_rp (k_at k) (k_idt k) s (k_now_op k) (k_now_rp k)) (k_rp k)
   && exp_view_eqb (asrc && k_at_jwt k) (view_jwt_access_token s) (k_jwt k).
+
+(* one refresh round: the session record before the round, (provider clock at the refresh, access-token lifetime,
+   ID Token lifetime), and the views observed after it; the record the provider holds afterwards must be the
+   refreshed record and every view a projection of it *)
+Definition chk_refresh (k : session * (Z * Z * Z) * views_case) : bool :=
+  let '(prev, r, vc) := k in
+  session_eqb (refresh_session prev r) (k_session vc) && chk_views vc.
+Definition diag_refresh (k : session * (Z * Z * Z) * views_case) : session * list (string * view) :=
+  let '(prev, r, vc) := k in (refresh_session prev r, diag_views vc).
